@@ -107,7 +107,9 @@ func (p *f1parser) expr(min int, inTern bool) *lang.N {
 	}
 }
 
-func opTok(op string) ft   { return ft{kind: "op", text: op, toks: []lang.Tok{{T: op, NLAfter: true}}} }
+func opTok(op string) ft {
+	return ft{kind: "op", text: op, toks: []lang.Tok{{T: op, NLAfter: op != "in" && op != "not in"}}}
+}
 func preTok(op string) ft  { return ft{kind: "pre", text: op, toks: []lang.Tok{{T: op}}} }
 func symTok(s string) ft   { return ft{kind: s, text: s, toks: []lang.Tok{{T: s}}} }
 func atomOf(n *lang.N) ft  { return ft{kind: "atom", node: n, toks: lang.RenderExpr(n)} }
